@@ -117,7 +117,7 @@ class Scan:
                 elif kind == "aug":
                     recv = n.target.value
                 elif kind == "mutcall":
-                    recv = n.func.value.value
+                    recv = getattr(n.func.value, "value", None)
                 else:
                     b = n.func.value if isinstance(n, ast.Call) else n
                     while isinstance(b, ast.Subscript):
@@ -137,7 +137,33 @@ class Scan:
         for fi in self.repo.all_funcs():
             if not fi.module.name.startswith(modules_prefix):
                 continue
+            # local aliases of the field (or of an element of it): `m = state.attr`, `row = state.attr[k]`, `row = m[k]` — a write through the
+            # alias is a write of the field (hoisted lookups are a routine optimisation)
+            aliases: set[str] = set()
+            changed = True
+            while changed:
+                changed = False
+                for n in walk_scope(fi.node):
+                    if isinstance(n, ast.Assign) and len(n.targets) == 1 and isinstance(n.targets[0], ast.Name) and n.targets[0].id not in aliases:
+                        v = n.value
+                        while isinstance(v, ast.Subscript):
+                            v = v.value
+                        if (isinstance(v, ast.Attribute) and v.attr == attr and isinstance(n.value, (ast.Attribute, ast.Subscript))) \
+                                or (isinstance(v, ast.Name) and v.id in aliases and isinstance(n.value, ast.Subscript)):
+                            aliases.add(n.targets[0].id)
+                            changed = True
+
+            def alias_root(e):
+                while isinstance(e, ast.Subscript):
+                    e = e.value
+                return isinstance(e, ast.Name) and e.id in aliases
             for n in walk_scope(fi.node):
+                if aliases and isinstance(n, ast.Call) and isinstance(n.func, ast.Attribute) and n.func.attr in MUTATORS and alias_root(n.func.value):
+                    yield fi, n, ("mutcall" if isinstance(n.func.value, ast.Name) else "submutcall"), n.func.attr
+                    continue
+                if aliases and isinstance(n, ast.Subscript) and isinstance(n.ctx, (ast.Store, ast.Del)) and alias_root(n):
+                    yield fi, n, "substore" if isinstance(n.ctx, ast.Store) else "subdel", None
+                    continue
                 if isinstance(n, ast.Attribute) and n.attr == attr:
                     if isinstance(n.ctx, ast.Store):
                         yield fi, n, "store", None
